@@ -6,6 +6,7 @@ From PV Require Import Lib.Bytes Gen.MkByteSets Model.MkLexPrim Model.MkLexer Mo
   Model.MkLineSplit Model.MatchVarassign Spec.MkPartition Proofs.MkLineSplit Proofs.Varassign.
 From PV Require Import Proofs.MkLexPrim Proofs.MkLexer.
 From Coq Require Import ZifyBool ZifyN ZifyNat.
+From PV Require Import Proofs.VarassignFull Proofs.RawAlignWalk.
 From PV Require Model.Lines Proofs.LinesLoop.
 Import ListNotations.
 Open Scope N_scope.
@@ -18,45 +19,38 @@ Proof. reflexivity. Qed.
 Lemma ml_single text : parse_varassign_ml false text text = parse_varassign text.
 Proof. reflexivity. Qed.
 
-(* ---- an accepted line is accepted by the one-raw-line tail on the logical text, and passed the guard ---- *)
-
-Ltac ml_stages H :=
-  destruct (tokenize (sr_main _)) as [toks| |]; cbn [bind] in *; try discriminate;
-  cbv zeta in *;
-  destruct (Varname _) as [[vname mkrest]| |]; cbn [bind] in *; try discriminate;
-  destruct (tl_skip_mixed _ _ _) as [lexer2| |]; cbn [bind] in *; try discriminate.
+(* ---- an accepted line passed the guard, and is accepted by the tail run against raw0 ---- *)
 
 Lemma ml_tail_accept ml raw0 text c sr a :
   match_varassign_tail_ml ml raw0 text c sr = Ok (Some a) ->
-  match_varassign_tail c text sr = Ok (Some a) /\
-  (ml = true -> exists al r, text = al ++ r /\
-     (length (rtrim_hspace al) <= length (first_line_of raw0))%nat).
+  match_varassign_tail c raw0 sr = Ok (Some a) /\
+  (ml = true -> exists up_to_op r, text = up_to_op ++ r /\ (length up_to_op <= length (first_line_of raw0))%nat).
 Proof.
   unfold match_varassign_tail_ml, match_varassign_tail. intro H.
-  ml_stages H.
+  destruct (tokenize (sr_main sr)) as [toks| |]; cbn [bind] in *; try discriminate.
+  cbv zeta in *.
+  destruct (Varname _) as [[vname mkrest]| |]; cbn [bind] in *; try discriminate.
+  destruct (tl_skip_mixed _ _ _) as [lexer2| |]; cbn [bind] in *; try discriminate.
   destruct vname as [|v0 vname]; [discriminate|].
   destruct (next_bytes is_hspace (fst lexer2)) as [sav cur3].
   match type of H with context [skip_byte 61 ?c4] => destruct (skip_byte 61 c4) as [cur5|] end; [|discriminate].
   match type of H with (if ?c then Panic else _) = _ => destruct c; [discriminate|] end.
-  match type of H with context [has_suffix [43] ?v && ?b && ?d] => destruct (has_suffix [43] v && b && d) end;
-  cbv beta iota in *;
-  match type of H with context [get_raw_value_align text ?p] =>
-    pose proof (get_raw_value_align_post text p) as P; destruct (get_raw_value_align text p) as [al| |] end;
-    cbn [bind] in *; try discriminate;
-  (destruct ml; cbn [andb] in H;
-   [ destruct (length (first_line_of raw0) <? length (rtrim_hspace al))%nat eqn:L; [discriminate|];
-     split; [exact H|]; intros _; destruct P as (r & Hr); exists al, r; split; [exact Hr|];
-     apply Nat.ltb_ge in L; exact L
-   | split; [exact H|discriminate] ]).
+  destruct ml.
+  - match type of H with context [get_raw_value_align text ?p] =>
+      pose proof (get_raw_value_align_post text p) as P; destruct (get_raw_value_align text p) as [up| |] end;
+      cbn [bind] in H; try discriminate.
+    destruct (length (first_line_of raw0) <? length up)%nat eqn:Lt; [discriminate|].
+    split; [exact H|]. intros _. destruct P as (r & Hr). exists up, r. split; [exact Hr|].
+    apply Nat.ltb_ge in Lt. exact Lt.
+  - cbn [bind] in H. split; [exact H|discriminate].
 Qed.
 
 (* the shape in which matchVarassign reaches its tail: T is the text that was split into sr *)
 Lemma ml_accept ml raw0 text a :
   parse_varassign_ml ml raw0 text = Ok (Some a) ->
   exists (c : bool) T sr, split T true = Ok sr /\ text = (if c then [35] else []) ++ T /\
-    match_varassign_tail c text sr = Ok (Some a) /\
-    (ml = true -> exists al r, text = al ++ r /\
-       (length (rtrim_hspace al) <= length (first_line_of raw0))%nat).
+    match_varassign_tail c raw0 sr = Ok (Some a) /\
+    (ml = true -> exists up_to_op r, text = up_to_op ++ r /\ (length up_to_op <= length (first_line_of raw0))%nat).
 Proof.
   unfold parse_varassign_ml. destruct (split text true) as [first| |] eqn:E1; cbn [bind]; try discriminate.
   unfold match_varassign_ml.
@@ -74,11 +68,11 @@ Proof.
 Qed.
 
 (* every accepted multi-line assignment has its operator in the first raw line: the raw text of the
-   logical line up to the operator (the alignment prefix without its trailing blanks) is no longer
-   than the first physical line without its continuation backslash and trailing blanks *)
+   logical line up to and including the operator is no longer than the first physical line without
+   its continuation backslash and trailing blanks *)
 Lemma varassign_ml_guard raw0 text a :
   parse_varassign_ml true raw0 text = Ok (Some a) ->
-  exists al r, text = al ++ r /\ (length (rtrim_hspace al) <= length (first_line_of raw0))%nat.
+  exists up_to_op r, text = up_to_op ++ r /\ (length up_to_op <= length (first_line_of raw0))%nat.
 Proof. intro H. destruct (ml_accept _ _ _ _ H) as (c & T & sr & _ & _ & _ & Hg). auto. Qed.
 
 (* for every accepted assignment, whatever the raw lines are: [#] ++ pre ++ comment is the logical
@@ -87,22 +81,24 @@ Lemma varassign_ml_value_comment_recombine ml raw0 text a :
   parse_varassign_ml ml raw0 text = Ok (Some a) -> va_law text a.
 Proof.
   intro H. destruct (ml_accept _ _ _ _ H) as (commented & T & sr & Hs & Ht & Hm & _).
-  destruct (match_varassign_tail_law commented text T sr a Hs Hm) as (head & sp & A1 & A2 & A3 & A4 & A5 & A6).
+  destruct (match_varassign_tail_law commented raw0 T sr a Hs Hm) as (head & sp & A1 & A2 & A3 & A4 & A5 & A6).
   destruct (split_recombines _ _ _ Hs) as (pre & B1 & B2 & B3 & _).
   exists head, pre, sp. rewrite A1, A2, A3. subst sp.
-  split; [rewrite Ht at 1; rewrite B1; reflexivity|].
+  split; [rewrite Ht, B1; reflexivity|].
   split; [rewrite B2, A4, <- app_assoc; reflexivity|].
   split; [exact A4|]. split; [exact B3|exact A6].
 Qed.
 
-(* the alignment prefix handed out is a prefix of the text (plus the blanks before the comment when
-   the value is empty) *)
+(* the alignment prefix handed out is a prefix of the FIRST RAW LINE (plus the blanks before the
+   comment when the value is empty) *)
 Lemma tail_align_prefix c raw sr a : match_varassign_tail c raw sr = Ok (Some a) ->
-  exists al r, raw = al ++ r /\
-    va_value_align a = al ++ (match va_value a with [] => sr_space_before_comment sr | _ => [] end).
+  exists al r, raw = al ++ r /\ va_value_align a = al ++ (match va_value a with [] => sr_space_before_comment sr | _ => [] end).
 Proof.
   unfold match_varassign_tail. intro H.
-  ml_stages H.
+  destruct (tokenize (sr_main sr)) as [toks| |]; cbn [bind] in *; try discriminate.
+  cbv zeta in *.
+  destruct (Varname _) as [[vname mkrest]| |]; cbn [bind] in *; try discriminate.
+  destruct (tl_skip_mixed _ _ _) as [lexer2| |]; cbn [bind] in *; try discriminate.
   destruct vname as [|v0 vname]; [discriminate|].
   destruct (next_bytes is_hspace (fst lexer2)) as [sav cur3].
   match type of H with context [skip_byte 61 ?c4] => destruct (skip_byte 61 c4) as [cur5|] end; [|discriminate].
@@ -119,8 +115,7 @@ Qed.
 
 Lemma varassign_ml_align_prefix ml raw0 text a :
   parse_varassign_ml ml raw0 text = Ok (Some a) ->
-  exists al r sp, text = al ++ r /\ va_value_align a = al ++ sp /\ forallb is_hspace sp = true /\
-    (va_value a <> [] -> sp = []).
+  exists al r sp, raw0 = al ++ r /\ va_value_align a = al ++ sp /\ forallb is_hspace sp = true /\ (va_value a <> [] -> sp = []).
 Proof.
   intro H. destruct (ml_accept _ _ _ _ H) as (c & T & sr & Hs & _ & Hm & _).
   destruct (tail_align_prefix _ _ _ _ Hm) as (al & r & Hr & Ha).
@@ -130,39 +125,114 @@ Proof.
   - exists []. repeat split; auto.
 Qed.
 
-(* ---- no panic beyond those of parsing the logical text itself ---- *)
+(* ---- no panic: the guard makes getRawValueAlign(raw[0], ...) safe ---- *)
 
-Lemma ml_tail_no_panic ml raw0 c text sr r :
-  match_varassign_tail c text sr = Ok r ->
-  match_varassign_tail_ml ml raw0 text c sr <> Panic.
+Lemma rtrim_snoc_nh X c : is_hspace c = false -> rtrim_hspace (X ++ [c]) = X ++ [c].
 Proof.
-  unfold match_varassign_tail_ml, match_varassign_tail. intros H.
-  ml_stages H.
-  destruct vname as [|v0 vname]; [discriminate|].
-  destruct (next_bytes is_hspace (fst lexer2)) as [sav cur3].
-  match type of H with context [skip_byte 61 ?c4] => destruct (skip_byte 61 c4) as [cur5|] end; [|discriminate].
-  match type of H with (if ?c then Panic else _) = _ => destruct c; [discriminate|] end.
-  match type of H with context [has_suffix [43] ?v && ?b && ?d] => destruct (has_suffix [43] v && b && d) end;
-  cbv beta iota in *;
-  match type of H with context [get_raw_value_align text ?p] => destruct (get_raw_value_align text p) as [al| |] end;
-  cbn [bind] in *; try discriminate;
-  destruct (ml && _); try discriminate;
-  match goal with |- context [trim_hspace ?x] => destruct (trim_hspace x) end; discriminate.
+  intro Hc. induction X as [|a t IH]; cbn [app rtrim_hspace]; [rewrite Hc; reflexivity|].
+  rewrite IH. destruct (t ++ [c]) eqn:E; [destruct t; discriminate|reflexivity].
 Qed.
 
+Lemma ends_nh_snoc X c : is_hspace c = false -> ends_nh (X ++ [c]).
+Proof. intro Hc. split; [apply rtrim_snoc_nh; exact Hc|destruct X; discriminate]. Qed.
+
+Lemma trim_suffix_app A suf : MkTokensLexer.trim_suffix (A ++ suf) suf = A.
+Proof.
+  unfold MkTokensLexer.trim_suffix, has_suffix. rewrite app_length.
+  replace (length A + length suf - length suf)%nat with (length A) by lia.
+  rewrite skipn_app, skipn_all, Nat.sub_diag. cbn [skipn app]. rewrite str_eqb_refl.
+  replace (length suf <=? length A + length suf)%nat with true by (symmetry; apply Nat.leb_le; lia).
+  cbn [andb]. rewrite firstn_app, firstn_all, Nat.sub_diag. cbn [firstn]. apply app_nil_r.
+Qed.
+
+Lemma tl_since_app (mark m : tlexer) A : tl_rest mark = A ++ tl_rest m -> tl_since mark m = A.
+Proof. intro H. unfold tl_since. rewrite H. apply trim_suffix_app. Qed.
+
+(* the shape of the two raw texts: F is the first physical line without continuation backslash and
+   trailing blanks; it starts the text of the logical line as well *)
+Lemma ml_tail_no_panic raw0 (c : bool) text sr r F x y :
+  text = F ++ x -> raw0 = F ++ y -> first_line_of raw0 = F ->
+  match_varassign_tail c text sr = Ok r ->
+  match_varassign_tail_ml true raw0 text c sr <> Panic.
+Proof.
+  intros Htext Hraw HF H. unfold match_varassign_tail_ml, match_varassign_tail in *.
+  destruct (tokenize (sr_main sr)) as [toks| |] eqn:Et; cbn [bind] in *; try discriminate.
+  cbv zeta in *.
+  set (lexer1 := if c then tl_new toks else tl_lift skip_spaces (tl_new toks)) in *.
+  assert (S1 : is_suffix (tl_rest lexer1) (tl_rest (tl_new toks))).
+  { unfold lexer1. destruct c; [apply is_suffix_refl|]. unfold tl_lift. apply tl_cur_suffix, skip_spaces_suffix. }
+  destruct (Varname _) as [[vname mkrest]| |]; cbn [bind] in *; try discriminate.
+  destruct (tl_skip_mixed _ _ lexer1) as [lexer2| |] eqn:E2; cbn [bind] in *; try discriminate.
+  apply tl_skip_mixed_suffix in E2.
+  destruct vname as [|v0 vname]; [discriminate|].
+  destruct (next_bytes is_hspace (fst lexer2)) as [sav cur3] eqn:E3.
+  pose proof (next_bytes_eq _ _ _ _ E3) as Hcur.
+  match type of H with context [skip_byte 61 ?c4] => destruct (skip_byte 61 c4) as [cur5|] eqn:E5 end; [|discriminate].
+  match type of H with (if ?cc then Panic else _) = _ => destruct cc; [discriminate|] end.
+  (* the main part = A5 ++ rest of lexer5, and A5 ends with "=" *)
+  set (R2 := concat (map fst (snd lexer2))) in *.
+  assert (Hop : exists opc, cur3 = opc ++ [61] ++ cur5).
+  { destruct cur3 as [|c0 t]; [discriminate|].
+    destruct ((c0 =? 33) || (c0 =? 43) || (c0 =? 58) || (c0 =? 63)).
+    - destruct t as [|c1 t']; [discriminate|]. cbn [skip_byte] in E5.
+      destruct (c1 =? 61) eqn:E61; [|discriminate]. apply N.eqb_eq in E61. inversion E5; subst. exists [c0]. reflexivity.
+    - cbn [skip_byte] in E5. destruct (c0 =? 61) eqn:E61; [|discriminate]. apply N.eqb_eq in E61. inversion E5; subst. exists []. reflexivity. }
+  destruct Hop as (opc & Hopc).
+  destruct (is_suffix_trans _ _ _ E2 S1) as (B & HB).
+  assert (H5 : tl_rest (tl_new toks) = ((B ++ sav ++ opc) ++ [61]) ++ tl_rest (cur5, snd lexer2)).
+  { rewrite HB. unfold tl_rest. cbn [fst snd]. fold R2. rewrite Hcur, Hopc. rewrite <- !app_assoc. reflexivity. }
+  set (A5 := (B ++ sav ++ opc) ++ [61]) in *.
+  rewrite (tl_since_app _ _ _ H5).
+  (* lexer6 *)
+  match type of H with context [has_suffix [43] ?v && ?b && ?d] => destruct (has_suffix [43] v && b && d) end;
+  cbv beta iota in *.
+  all: set (hs := fst (next_bytes is_hspace cur5)) in *.
+  all: assert (Hhs : forallb is_hspace hs = true) by (apply span_all).
+  all: assert (H6 : tl_rest (tl_new toks) = (A5 ++ hs) ++ tl_rest (tl_lift (fun s => snd (next_bytes is_hspace s)) (cur5, snd lexer2)))
+    by (rewrite H5; unfold tl_rest, tl_lift; cbn [fst snd]; rewrite <- (next_bytes_app is_hspace cur5) at 1; fold hs; rewrite <- !app_assoc; reflexivity).
+  all: rewrite (tl_since_app _ _ _ H6) in *.
+  all: set (pref := if c then [35] else []) in *.
+  all: assert (Hp5 : ends_nh (pref ++ A5)) by (unfold A5; rewrite app_assoc; apply ends_nh_snoc; reflexivity).
+  all: destruct (get_raw_value_align text (pref ++ A5 ++ hs)) as [al6| |] eqn:G6; cbn [bind] in H; try discriminate.
+  all: unfold get_raw_value_align in G6.
+  all: destruct (raw_value_align_loop (S (length (pref ++ A5 ++ hs))) text (pref ++ A5 ++ hs)) as [r6| |] eqn:L6; cbn [bind] in G6; try discriminate.
+  all: rewrite app_assoc in L6.
+  all: destruct (loop_prefix _ (S (length (pref ++ A5))) _ _ _ _ Hp5 L6 ltac:(lia)) as (rT & LT).
+  all: unfold get_raw_value_align at 1; rewrite LT; cbn [bind].
+  all: destruct (length (first_line_of raw0) <? length (since text rT))%nat eqn:Lt; [discriminate|].
+  all: apply Nat.ltb_ge in Lt.
+  all: assert (Hx : (length x <= length rT)%nat)
+    by (pose proof (is_suffix_length _ _ (loop_suffix _ _ _ _ LT)) as Sl;
+        unfold since in Lt; rewrite firstn_length in Lt; rewrite HF in Lt; subst text; rewrite app_length in *; lia).
+  all: assert (HFr : rtrim_hspace F = F) by (rewrite <- HF; unfold first_line_of; apply rtrim_idem).
+  all: subst text raw0.
+  all: destruct (loop_common_prefix _ (S (length ((pref ++ A5) ++ hs))) (pref ++ A5) hs F x y rT Hp5 Hhs HFr LT Hx
+         ltac:(lia)) as (r' & Lr).
+  all: unfold get_raw_value_align; rewrite (app_assoc pref A5 hs), Lr; cbn [bind].
+  all: match goal with |- context [trim_hspace ?z] => destruct (trim_hspace z) end; discriminate.
+Qed.
+
+(* one raw line (raw0 = text), or several with the shape convertToLogicalLines gives them *)
+Definition ml_shape (ml : bool) (raw0 text : str) : Prop :=
+  if ml then exists x y, text = first_line_of raw0 ++ x /\ raw0 = first_line_of raw0 ++ y
+  else raw0 = text.
+
 Lemma varassign_ml_no_panic ml raw0 text r :
+  ml_shape ml raw0 text ->
   parse_varassign text = Ok r -> parse_varassign_ml ml raw0 text <> Panic.
 Proof.
-  unfold parse_varassign_ml, parse_varassign.
-  destruct (split text true) as [first| |] eqn:E1; cbn [bind]; try discriminate.
-  unfold match_varassign_ml, match_varassign.
-  destruct (negb (nonempty (sr_main first)) && sr_has_comment first && has_prefix [35] text).
-  - destruct (next_bytes is_hspace (sr_comment first)) as [hs crest].
-    destruct (nonempty hs || negb (nonempty crest)); [discriminate|].
-    destruct (skip 1 text) as [t1| |]; cbn [bind]; try discriminate.
-    destruct (split t1 true) as [sr| |]; cbn [bind]; try discriminate.
-    apply ml_tail_no_panic.
-  - apply ml_tail_no_panic.
+  destruct ml; cbn [ml_shape].
+  - intros (x & y & Ht & Hr). unfold parse_varassign_ml, parse_varassign.
+    destruct (split text true) as [first| |] eqn:E1; cbn [bind]; try discriminate.
+    unfold match_varassign_ml, match_varassign.
+    destruct (negb (nonempty (sr_main first)) && sr_has_comment first && has_prefix [35] text).
+    + destruct (next_bytes is_hspace (sr_comment first)) as [hs crest].
+      destruct (nonempty hs || negb (nonempty crest)); [discriminate|].
+      destruct (skip 1 text) as [t1| |]; cbn [bind]; try discriminate.
+      destruct (split t1 true) as [sr| |]; cbn [bind]; try discriminate.
+      eapply ml_tail_no_panic; eauto.
+    + eapply ml_tail_no_panic; eauto.
+  - intros -> H. rewrite ml_single, H. discriminate.
 Qed.
 
 (* ---- all logical lines of a file (C09's convertToLogicalLines) ---- *)
@@ -178,8 +248,8 @@ Lemma varassign_of_file_lines raw_text ls :
     forall a, snd lr = Ok (Some a) ->
       va_law (Lines.text (fst lr)) a /\
       (line_multiline (fst lr) = true ->
-       exists al r, Lines.text (fst lr) = al ++ r /\
-         (length (rtrim_hspace al) <= length (first_line_of (line_raw0 (fst lr))))%nat)) ls.
+       exists up_to_op r, Lines.text (fst lr) = up_to_op ++ r /\
+         (length up_to_op <= length (first_line_of (line_raw0 (fst lr))))%nat)) ls.
 Proof.
   unfold varassign_of_file.
   destruct (Lines.convert_to_logical_lines raw_text true) as [[lines w]| |]; cbn [lift_lines_res bind]; try discriminate.
@@ -214,21 +284,27 @@ Proof.
   subst. eapply grouped_raws_nonempty; eassumption.
 Qed.
 
+(* FULL statement over files (neither proved nor refuted here: it needs, from C09, that the first
+   physical line without backslash and trailing blanks starts the logical text - corresponded) *)
 Definition ml_no_panic_full : Prop :=
   forall raw_text ls, varassign_of_file raw_text = Ok ls ->
     Forall (fun lr : Lines.line * res (option varassign) =>
       (exists r, parse_varassign (Lines.text (fst lr)) = Ok r) -> snd lr <> Panic) ls.
 
-Lemma ml_no_panic : ml_no_panic_full.
+(* PARTIAL: the same with the shape of the line spelled out *)
+Lemma ml_no_panic_lines raw_text ls : varassign_of_file raw_text = Ok ls ->
+    Forall (fun lr : Lines.line * res (option varassign) =>
+      ml_shape (line_multiline (fst lr)) (line_raw0 (fst lr)) (Lines.text (fst lr)) ->
+      (exists r, parse_varassign (Lines.text (fst lr)) = Ok r) -> snd lr <> Panic) ls.
 Proof.
-  unfold ml_no_panic_full, varassign_of_file. intros raw_text ls.
+  unfold varassign_of_file.
   destruct (Lines.convert_to_logical_lines raw_text true) as [[lines w]| |] eqn:E; cbn [lift_lines_res bind]; try discriminate.
   intro H. inversion H; subst ls. clear H.
   pose proof (convert_raws_nonempty _ _ _ E) as NE. rewrite Forall_forall in NE.
   apply Forall_forall. intros lr Hin. apply in_map_iff in Hin as (l & <- & Hl). cbn [fst snd].
-  intros (r & Hr). unfold varassign_of_line. specialize (NE l Hl).
+  unfold line_multiline, line_raw0, varassign_of_line. specialize (NE l Hl).
   destruct (Lines.raws l) as [|r0 more]; [congruence|].
-  eapply varassign_ml_no_panic; exact Hr.
+  intros Hs (r & Hr). destruct more as [|r1 more]; eapply varassign_ml_no_panic; eauto.
 Qed.
 
 (* ---- the former witness of the panic: VAR.${PARAM:S,=,,}\  /  = value ---- *)
